@@ -185,3 +185,37 @@ impl core::ops::AddAssign for Tr { fn add_assign(&mut self, o: Tr) { *self = Tr:
 impl core::ops::SubAssign for Tr { fn sub_assign(&mut self, o: Tr) { *self = Tr::mix(*self, o, 2) } }
 impl core::ops::MulAssign for Tr { fn mul_assign(&mut self, o: Tr) { *self = Tr::mix(*self, o, 3) } }
 impl core::ops::DivAssign for Tr { fn div_assign(&mut self, o: Tr) { *self = Tr::mix(*self, o, 4) } }
+
+/// Recording settable: remembers the last value handed to impl_set, counts calls, can reject or fail its update.
+pub struct Sink<T: Clone> {
+    pub data: SettableData<T, E>,
+    pub got: Option<T>,
+    pub sets: u32,
+    pub updates: u32,
+    pub reject: Option<E>,
+    pub update_error: Option<E>,
+}
+impl<T: Clone> Sink<T> {
+    pub fn new() -> Self {
+        Self { data: SettableData::new(), got: None, sets: 0, updates: 0, reject: None, update_error: None }
+    }
+}
+impl<T: Clone> Settable<T, E> for Sink<T> {
+    fn get_settable_data_ref(&self) -> &SettableData<T, E> { &self.data }
+    fn get_settable_data_mut(&mut self) -> &mut SettableData<T, E> { &mut self.data }
+    fn impl_set(&mut self, value: T) -> NothingOrError<E> {
+        self.sets += 1;
+        match self.reject {
+            Some(e) => Err(Error::Other(e)),
+            None => { self.got = Some(value); Ok(()) }
+        }
+    }
+}
+impl<T: Clone> Updatable<E> for Sink<T> {
+    fn update(&mut self) -> NothingOrError<E> {
+        self.updates += 1;
+        if let Some(e) = self.update_error { return Err(Error::Other(e)); }
+        self.update_following_data()?;
+        Ok(())
+    }
+}
